@@ -241,6 +241,101 @@ def run(F, rep, tier):
         else:
             rep.viol('R1.7', evaluate + '|Swap|shape', 'swap is no longer two reads followed by two assigns (%d reads, %d writes)' % (len(reads), len(writes)), eb.loc(min(regn)) if regn else None)
 
+    # ---------------- R1.8
+    rep.rule('R1.8', 'no user code runs while a variable cell is mutably borrowed: the closures handed to Env::modify_ident / '
+             'modify_existing_var / modify_peek cannot reach Func::run*, evaluate or an indirect (FnMut) call, except through is_type '
+             '(satisfying-types, documented); so a partially completed update is never observable and the cell is never re-entered')
+    from .core import CallGraph
+    cg = CallGraph(F)
+    evalset = {evaluate} | {p for p in F.fns if re.search(r'impl core::Func>::run', p)}
+    n8 = 0
+    for b in F.all_bodies():
+        for c in b.calls:
+            if c.target not in ('core::Env::modify_ident', 'core::Env::modify_existing_var', 'core::Env::modify_peek'):
+                continue
+            if b.path.startswith('core::Env::'):
+                continue
+            clos = None
+            for a in c.args:
+                for r in b.roots(a):
+                    if r[0] == 'agg' and r[1] == 'closure':
+                        clos = r[2]
+            if clos is None:
+                continue
+            n8 += 1
+            # reachability from the closure, not passing through is_type
+            seen = set()
+            st = [clos]
+            hit = None
+            while st and hit is None:
+                x = st.pop()
+                if x in seen or x == 'eval::is_type':
+                    continue
+                seen.add(x)
+                if x in evalset:
+                    hit = x
+                    break
+                if F.has_fn(x):
+                    bx = F.body(x)
+                    # calls through fn pointers (builtin bodies) or dyn Fn objects may be user code; calls of a generic
+                    # `impl FnOnce` parameter are whatever closure the caller passed, which is traversed as a mentioned value
+                    harmful = False
+                    for cc in bx.calls:
+                        if cc.is_indirect and re.match(r'^(for<|fn\(|unsafe fn|&?dyn )', cc.callee.get('pty', '')):
+                            harmful = True
+                        if (cc.callee.get('tr') or '').startswith('std::ops::Fn') and 'dyn ' in (cc.callee.get('g') or [''])[0]:
+                            harmful = True
+                        if cc.callee.get('rk') == 'virtual' and (cc.callee.get('tr') in ('core::Builtin', 'core::Catamorphism')):
+                            harmful = True
+                        # a closure that calls a generic `impl Fn*` it captured from its enclosing function's parameters runs
+                        # code supplied by that function's caller (e.g. the operator of an op-assign)
+                        if (cc.callee.get('tr') or '').startswith('std::ops::Fn') and '{closure' in x and \
+                                re.match(r'^(impl Fn|[A-Z]\w*$)', (cc.callee.get('g') or [''])[0]) and \
+                                any(o[0] == 'param' and o[1] == '_1' for o in origins(bx, cc.args[0])):
+                            harmful = True
+                    if harmful:
+                        hit = x + ' (call through a function pointer / trait object)'
+                        break
+                for y in cg.edges.get(x, ()):
+                    if y != '<indirect>':
+                        st.append(y)
+            owner = b.path
+            while owner in F.closure_parent:
+                owner = F.closure_parent[owner]
+            if hit is None:
+                rep.ok('R1.8', 'cell closure in %s' % owner, 'cannot reach the evaluator')
+            else:
+                rep.viol('R1.8', '%s|cell-closure-runs-user-code' % owner, 'a closure that holds a variable cell mutably borrowed (passed to %s in %s) can run user code via %s: a failing or self-referential function leaves the variable half-updated or hits an internal borrow error' % (c.target.rsplit('::', 1)[-1], owner, hit), c.loc())
+    rep.floor('R1.8', 'cell-writer closures', n8, 6)
+
+    # ---------------- R1.9
+    rep.rule('R1.9', 'take/restore pairing: when set_index moves a string payload out of its slot (mem::take on the make_mut result) every '
+             'path to a return - including the error exits - stores a string back into that slot')
+    sib = F.body(F.anchor('eval::set_index'))
+    takes = [c for c in sib.calls if c.target in ('std::mem::take', 'core::mem::take') and 'String' in str(c.callee.get('g'))]
+    if not takes:
+        rep.note('set_index no longer moves the string payload out (R1.9 vacuous)')
+    for tk in takes:
+        slot = op_local(tk.args[0])
+        # the &mut String local(s) the argument derives from
+        slots = {slot}
+        for (bb_, j_, kind_, s_) in sib.defs().get(slot, []):
+            if kind_ == 'a' and s_[2][0] in ('ref', 'use'):
+                pl = s_[2][-1] if s_[2][0] == 'ref' else (s_[2][1][1] if s_[2][1][0] in ('c', 'm') else None)
+                if pl:
+                    slots.add(pl[0])
+        restores = set()
+        for i in sib.reach:
+            for s_ in sib.stmts(i):
+                if s_[0] == 'a' and len(s_[1]) == 2 and s_[1][1] == '*' and s_[1][0] in slots:
+                    restores.add(i)
+        rets = set(sib.return_blocks())
+        start = tk.next
+        if restores and sib.every_path_passes(start, rets, restores):
+            rep.ok('R1.9', 'set_index string arm', 'every exit after mem::take stores a string back (%d restore sites)' % len(restores))
+        else:
+            rep.viol('R1.9', 'eval::set_index|take-without-restore', 'set_index can return (e.g. on an index error) after moving the string out of its slot without putting one back: the variable silently becomes "" while aliases keep the old text', tk.loc())
+
     # ---------------- R1.5 (thorough)
     rep.rule('R1.5', 'compile-fail witnesses (thorough tier): writing through a shared handle to a list / dict / vector payload is rejected by '
              'rustc with E0596 while the twin through Rc::make_mut on a &mut handle compiles (cargo +nightly test --doc on /verif/witness)')
